@@ -70,6 +70,14 @@ class Ctx:
     def fresh(self, base: str, sort):
         return self.path.fresh(base, sort)
 
+    def axiom(self, fact, why: str = "A3: ground instance of the lemma "
+                                     "library (rnd is the function defined "
+                                     "by round_rel)") -> None:
+        """assume a ground instance of a lemma-library axiom (never an
+        obligation; recorded in the assumption ledger)"""
+        self.path.assume(fact)
+        self.path.ledger.add(why)
+
 
 @dataclass
 class Scenario:
